@@ -81,6 +81,15 @@ for g in GROUPS:
                 for i, (gr, e, k) in enumerate(zip(grads, exp, kinds)):
                     env.eq(f'grad_input{i}_{k}', gr, e)
                 env.safe('finite', *grads)
+                # a gradient that is asked for is delivered whether or not the other input asks for one (ctx.needs_input_grad)
+                if len(inputs) == 2:
+                    for i in range(2):
+                        needs = tuple(j == i for j in range(2))
+                        _, gsel = env.backward(F, inputs, cot, needs=needs)
+                        if gsel[i] is None:
+                            env.holds(f'grad_input{i} is delivered when only input {i} requires a gradient', False)
+                        else:
+                            env.eq(f'grad_input{i} is the same when only input {i} requires a gradient', gsel[i], exp[i])
                 if out_kind == 'G':
                     # result independent of the last slot of the cotangent
                     cot2 = env.T.cat([cot[0:n_out - 1], cot[n_out - 1:] + 1], -1)
